@@ -1,9 +1,9 @@
 package main
 
 import (
-	"os"
 	"fmt"
 	"go/types"
+	"os"
 	"strings"
 
 	"golang.org/x/tools/go/ssa"
@@ -66,7 +66,7 @@ func checkC18(c *Ctx) {
 	c.Explain = "C18 decided by abstract interpretation of parse(build(v)) for symbolic values: the Roland-style builder is run with symbolic ids, address, request size and a payload of symbolic length >= 1; the parser is run on the abstract result with the checksum function treated as an uninterpreted function of the fields it covers, so parse succeeds on all partitions iff both sides apply the same function to the same fields at the same positions, and the returned value must equal the built one; likewise for machine-control locate and plain commands. The checksum arithmetic is decided in the congruence partition sum = 128*q + r for all 128 residues (zero sum, 7-bit result); a wrong checksum byte is rejected on every accepting path; with each covered byte entering the sum exactly once, a single-byte change of address or payload by d in 1..127 moves the required checksum by -d mod 128 != 0 and is rejected by the same comparison. Not decided: multi-byte corruptions that cancel out (not claimed by the property)."
 	c.Trusted = []string{"go/ssa", "E-abs incl. bytes.Buffer summary", "checksum treated as uninterpreted function in the parse(build) cells; its arithmetic is decided separately (C18.4) with the summation loop summarised as a sum symbol"}
 	c.Rule("C18.1", "Roland-style frame: Parse(SysEx(v)) succeeds on every partition and returns v (ids, address, payload of any length >= 1 / request size); builder layout F0 id dev model 11|12 addr x3 (size x3 | data) checksum F7", 4)
-	c.Rule("C18.2", "checksum coverage: builder and parser apply the same checksum function to the same fields (address + payload/size); every accepting path of the parser has compared the checksum byte with it", 4)
+	c.Rule("C18.2", "checksum coverage: builder and parser apply the same checksum function to the same fields (address + payload/size); every accepting path of the parser has compared the checksum byte with it", 3)
 	c.Rule("C18.4", "zero sum: for every residue class of the covered bytes' sum (partition by sum mod 128, the multiple of 128 symbolic; the class reached through the payload sum, through each address byte and through each size byte) the checksum c is a constant with 0 <= c <= 127 and sum + c = 0 mod 128", 7)
 	c.Rule("C18.3", "machine control: locate and plain commands parse back to the value they were built from (device ids 1..127, commands below 0x40)", 2)
 
@@ -243,84 +243,10 @@ func checkC18(c *Ctx) {
 		}
 	}
 
-	// what the checksum function reads: all three address bytes, all three size bytes, the whole payload
-	if cks != nil {
-		idx := map[string]map[int64]bool{"Address": {}, "NumReqBytes": {}}
-		whole := false
-		for _, b := range cks.Blocks {
-			for _, in := range b.Instrs {
-				var base ssa.Value
-				var k int64
-				var okk bool
-				switch x := in.(type) {
-				case *ssa.IndexAddr:
-					base = x.X
-					k, okk = constInt(x.Index)
-				case *ssa.Index:
-					base = x.X
-					k, okk = constInt(x.Index)
-				case *ssa.Slice:
-					// s.Address[:] / s.NumReqBytes[:] handed on as a whole (append, copy, range): all indices are read
-					if n, _, ok := fieldOf(x.X); ok {
-						if m, ok := idx[n]; ok && len(liveRefs(x)) > 0 {
-							lo, okl := int64(0), true
-							if x.Low != nil {
-								lo, okl = constInt(x.Low)
-							}
-							hi, okh := int64(3), true
-							if x.High != nil {
-								hi, okh = constInt(x.High)
-							}
-							if okl && okh {
-								for k := lo; k < hi; k++ {
-									m[k] = true
-								}
-							}
-						}
-					}
-				}
-				if base != nil && okk {
-					if l, ok := base.(*ssa.UnOp); ok {
-						base = l.X
-					}
-					if n, _, ok := fieldOf(base); ok {
-						if m, ok := idx[n]; ok {
-							m[k] = true
-						}
-					}
-				}
-				if l, ok := in.(*ssa.UnOp); ok {
-					if n, _, ok := fieldOf(l.X); ok && n == "SendingData" {
-						for _, u := range liveRefs(l) {
-							if call, ok := u.(*ssa.Call); ok {
-								if bi, ok := call.Call.Value.(*ssa.Builtin); ok && bi.Name() == "append" {
-									whole = true
-								}
-							}
-							if _, ok := u.(*ssa.Range); ok {
-								whole = true
-							}
-						}
-					}
-				}
-				if f, ok := in.(*ssa.Field); ok {
-					if f.X.Type().Underlying().(*types.Struct).Field(f.Field).Name() == "SendingData" {
-						for _, u := range liveRefs(f) {
-							if call, ok := u.(*ssa.Call); ok {
-								if bi, ok := call.Call.Value.(*ssa.Builtin); ok && bi.Name() == "append" {
-									whole = true
-								}
-							}
-						}
-					}
-				}
-			}
-		}
-		okA := len(idx["Address"]) == 3
-		okN := len(idx["NumReqBytes"]) == 3
-		c.Check(okA && okN && whole, "C18.2", "checksum reads address x3, size x3 and the whole payload", p.Pos(cks.Pos()), "all covered fields are read by the checksum function", fmt.Sprintf("checksum function does not read every covered byte (address indices %d/3, size indices %d/3, whole payload %v)", len(idx["Address"]), len(idx["NumReqBytes"]), whole))
-	}
-
+	// what the checksum function reads (all three address bytes, all three size bytes, the whole payload) is decided by
+	// C18.4 below: a byte that is not summed leaves its residue class with the wrong checksum. (A syntactic "reads index
+	// 0,1,2 and ranges over the payload" rule stood here until round 4; it alarmed on a checksum that sums through a
+	// helper over s.Address[:] / s.SendingData.)
 	// ---------------- checksum arithmetic (C18.4)
 	if mt != nil && cks != nil {
 		checksumArithmetic(c, mt, cks)
